@@ -415,3 +415,639 @@ Proof.
   - exact H0.
   - apply IH. rewrite H0. rewrite !qdot_dot. rewrite dot_vmul_shift. reflexivity.
 Qed.
+
+(* ------------------------------------------------------------------------------------------- *)
+(** * GSVD *)
+Lemma slr_matvec_row_nil M v i : (i < length M)%nat ->
+  nthq (slr_matvec {| slr_mat := M; slr_lr := [] |} v) i = qdot (nth i M []) v.
+Proof. intros Hi. rewrite slr_matvec_nil. apply nthq_qmat_vec; exact Hi. Qed.
+
+Lemma slr_matvec_row_one M x y v i : (i < length M)%nat -> (i < length x)%nat ->
+  nthq (slr_matvec {| slr_mat := M; slr_lr := [(x, y)] |} v) i = qdot (nth i M []) v + qdot v y * nthq x i.
+Proof.
+  intros Hi Hx. rewrite slr_matvec_one.
+  rewrite nthq_vadd by (rewrite ?qmat_vec_length, ?vscale_length; lia).
+  rewrite nthq_qmat_vec by exact Hi. rewrite nthq_vscale by exact Hx. reflexivity.
+Qed.
+
+Lemma row_scale_nth d M i : (i < length d)%nat -> (i < length M)%nat ->
+  nth i (row_scale d M) [] = vscale (nthq d i) (nth i M []).
+Proof. intros H1 H2. unfold row_scale, nthq. apply (nth_map2 vscale d M i 0 [] []); assumption. Qed.
+
+Lemma col_scale_nth M d i : (i < length M)%nat -> nth i (col_scale M d) [] = vmul (nth i M []) d.
+Proof. intros H. unfold col_scale. apply (nth_map_gen (fun r => vmul r d) M [] []). exact H. Qed.
+
+Section GSVD.
+Context (prow pcol psl psr : Q -> Q) (nrow ncol : nat) (A : mat) (reg : Q) (HA : wf_mat nrow ncol A).
+
+Lemma gsvd_weights_row_length : length (fst (gsvd_weights nrow ncol A reg)) = nrow.
+Proof.
+  destruct HA as [HL HF]. unfold gsvd_weights, gsvd_reg_matrix. cbn [fst].
+  destruct (Qeq_bool reg 0).
+  - unfold slr_plain. rewrite slr_matvec_nil, qmat_vec_length. exact HL.
+  - unfold regularizer. rewrite slr_matvec_one, vadd_length, qmat_vec_length, !vscale_length, vones_length. lia.
+Qed.
+
+(** The weight predict computes for the vector [x = A_i] is the fit's row weight i (same oracle question). *)
+Lemma gsvd_weight_row_predict i : (i < nrow)%nat ->
+  slr_matvec (gsvd_reg_matrix 1 ncol [nth i A []] reg) (vones ncol) = [nthq (fst (gsvd_weights nrow ncol A reg)) i].
+Proof.
+  intros Hi. destruct HA as [HL HF]. unfold gsvd_weights, gsvd_reg_matrix. cbn [fst].
+  destruct (Qeq_bool reg 0).
+  - unfold slr_plain. rewrite slr_matvec_row_nil by lia. reflexivity.
+  - unfold regularizer. rewrite slr_matvec_row_one by (rewrite ?vscale_length, ?vones_length; lia).
+    rewrite nthq_vscale by (rewrite vones_length; lia). rewrite nthq_vones by lia. reflexivity.
+Qed.
+
+(** Row i of the operator handed to the solver is the weighted vector predict builds from A_i. *)
+Lemma gsvd_operator_row i v : (i < nrow)%nat ->
+  let p := nthq (gsvd_diag prow (fst (gsvd_weights nrow ncol A reg))) i in
+  let dc := gsvd_diag pcol (snd (gsvd_weights nrow ncol A reg)) in
+  nthq (slr_matvec (gsvd_operator prow pcol nrow ncol A reg) v) i =
+  nthq (slr_matvec (slr_left_diag [p] (slr_right_diag (gsvd_reg_matrix 1 ncol [nth i A []] reg) dc)) v) 0.
+Proof.
+  intros Hi p dc. pose proof gsvd_weights_row_length as HW. destruct HA as [HL HF].
+  unfold gsvd_operator. fold dc. unfold gsvd_reg_matrix.
+  assert (HDl : length (gsvd_diag prow (fst (gsvd_weights nrow ncol A reg))) = nrow)
+    by (unfold gsvd_diag; rewrite map_length; exact HW).
+  destruct (Qeq_bool reg 0).
+  - unfold slr_plain, slr_left_diag, slr_right_diag. cbn [slr_mat slr_lr map].
+    rewrite !slr_matvec_row_nil by (unfold row_scale, col_scale; rewrite ?map2_length, ?map_length; cbn [length]; lia).
+    rewrite row_scale_nth by (unfold col_scale; rewrite ?map_length; lia).
+    rewrite col_scale_nth by lia. reflexivity.
+  - unfold regularizer, slr_left_diag, slr_right_diag. cbn [slr_mat slr_lr map fst snd].
+    rewrite !slr_matvec_row_one by
+        (unfold row_scale, col_scale; rewrite ?map2_length, ?map_length, ?vmul_length, ?vscale_length, ?vones_length; cbn [length]; lia).
+    rewrite row_scale_nth by (unfold col_scale; rewrite ?map_length; lia).
+    rewrite col_scale_nth by lia.
+    rewrite nthq_vmul by (rewrite ?vscale_length, ?vones_length; lia).
+    rewrite nthq_vscale by (rewrite vones_length; lia). rewrite nthq_vones by lia. reflexivity.
+Qed.
+
+Context (sU : mat) (sS : vec) (sV : mat) (index : list nat) (HU : length sU = nrow).
+
+(** The embedding is formed from the selected triples as documented:
+    row i, component k:  D1^{-a1}_i  U_{i,j}  sigma_j^{1 - fs}   with j = index[k]. *)
+Lemma gsvd_emb_row_entry i k : (i < nrow)%nat -> (k < length index)%nat ->
+  let j := nth k index 0%nat in
+  nthq (nth i (gsvd_emb_row prow psl nrow ncol A reg sU sS index) []) k ==
+  pinv (prow (nthq (fst (gsvd_weights nrow ncol A reg)) i)) * mget sU i j * psl (nthq sS j).
+Proof.
+  intros Hi Hk j. pose proof gsvd_weights_row_length as HW. unfold gsvd_emb_row, gsvd_sv.
+  rewrite (nth_map_gen (fun r => vmul (map psl (map (nthq sS) index)) r) _ [] []) by
+      (unfold row_scale; rewrite map2_length, take_cols_length; unfold gsvd_diag; rewrite map_length; lia).
+  rewrite row_scale_nth by (rewrite ?take_cols_length; unfold gsvd_diag; rewrite ?map_length; lia).
+  unfold take_cols. rewrite (nth_map_gen (fun r => map (nthq r) index) sU [] []) by lia.
+  rewrite nthq_vmul by (rewrite ?vscale_length, ?map_length; lia).
+  rewrite nthq_vscale by (rewrite map_length; lia).
+  rewrite map_map. rewrite (nthq_map_gen (fun x => psl (nthq sS x)) index 0%nat) by exact Hk.
+  rewrite (nthq_map_gen (nthq (nth i sU [])) index 0%nat) by exact Hk.
+  unfold gsvd_diag. rewrite (nthq_map_gen (fun x => pinv (prow x)) _ 0) by lia.
+  fold j. unfold mget, nthq. ring.
+Qed.
+
+Lemma gsvd_emb_row_length i : (i < nrow)%nat ->
+  length (nth i (gsvd_emb_row prow psl nrow ncol A reg sU sS index) []) = length index.
+Proof.
+  intros Hi. pose proof gsvd_weights_row_length as HW. unfold gsvd_emb_row, gsvd_sv.
+  rewrite (nth_map_gen (fun r => vmul (map psl (map (nthq sS) index)) r) _ [] []) by
+      (unfold row_scale; rewrite map2_length, take_cols_length; unfold gsvd_diag; rewrite map_length; lia).
+  rewrite row_scale_nth by (rewrite ?take_cols_length; unfold gsvd_diag; rewrite ?map_length; lia).
+  unfold take_cols. rewrite (nth_map_gen (fun r => map (nthq r) index) sU [] []) by lia.
+  rewrite vmul_length, vscale_length, !map_length. lia.
+Qed.
+
+(** predict on row i of the fitted matrix reproduces embedding_row_[i] (before normalisation),
+    given the singular equation M v_j = sigma_j u_j for each selected triple and the power oracles'
+    contract  sigma^(1-fs) * sigma^fs = sigma,  sigma^fs <> 0. *)
+Lemma gsvd_predict_core i (norm_o : Q -> Q) : (i < nrow)%nat ->
+  (forall k, (k < length index)%nat -> let j := nth k index 0%nat in
+     slr_matvec (gsvd_operator prow pcol nrow ncol A reg) (col j sV) =v vscale (nthq sS j) (col j sU) /\
+     psl (nthq sS j) * psr (nthq sS j) == nthq sS j /\ ~ psr (nthq sS j) == 0) ->
+  gsvd_predict_row prow pcol psr norm_o false ncol reg (snd (gsvd_weights nrow ncol A reg))
+                   (gsvd_sv sS index) (take_cols index sV) (nth i A []) =v
+  nth i (gsvd_emb_row prow psl nrow ncol A reg sU sS index) [].
+Proof.
+  intros Hi Hsolver. unfold gsvd_predict_row. cbv iota.
+  rewrite (gsvd_weight_row_predict i Hi).
+  change (gsvd_diag prow [nthq (fst (gsvd_weights nrow ncol A reg)) i])
+    with [pinv (prow (nthq (fst (gsvd_weights nrow ncol A reg)) i))].
+  change (nthq [pinv (prow (nthq (fst (gsvd_weights nrow ncol A reg)) i))] 0)
+    with (pinv (prow (nthq (fst (gsvd_weights nrow ncol A reg)) i))).
+  set (p := pinv (prow (nthq (fst (gsvd_weights nrow ncol A reg)) i))).
+  assert (Hp : p = nthq (gsvd_diag prow (fst (gsvd_weights nrow ncol A reg))) i).
+  { unfold p, gsvd_diag. symmetry. apply (nthq_map_gen (fun x => pinv (prow x)) _ 0).
+    rewrite gsvd_weights_row_length. exact Hi. }
+  unfold gsvd_sv. rewrite map_length.
+  apply veq_nth.
+  - rewrite map2_length, vscale_length, !map_length, seq_length, gsvd_emb_row_length by exact Hi. lia.
+  - intros k Hk. rewrite map2_length, vscale_length, !map_length, seq_length, Nat.min_id in Hk.
+    rewrite nthq_map2 by (rewrite ?vscale_length, ?map_length, ?seq_length; lia).
+    rewrite nthq_vscale by (rewrite map_length, seq_length; lia).
+    rewrite nthq_seq_map by exact Hk.
+    rewrite map_map. rewrite (nthq_map_gen (fun x => psr (nthq sS x)) index 0%nat) by exact Hk.
+    rewrite col_take_cols by exact Hk.
+    rewrite gsvd_emb_row_entry by assumption. cbv zeta.
+    destruct (Hsolver k Hk) as [Hop [Hpow Hnz]]. cbv zeta in Hop, Hpow, Hnz.
+    set (j := nth k index 0%nat) in *.
+    rewrite Hp. rewrite <- (gsvd_operator_row i (col j sV) Hi). rewrite <- Hp.
+    rewrite (veq_nthq _ _ i Hop). rewrite nthq_vscale by (rewrite col_length; lia).
+    rewrite nthq_col by lia. fold p.
+    set (s := nthq sS j) in *. set (uij := mget sU i j).
+    rewrite <- Hpow at 1. field. exact Hnz.
+Qed.
+End GSVD.
+
+(** Column embedding entry and full fit / predict theorems. *)
+Lemma gsvd_weights_col_length nrow ncol A reg : wf_mat nrow ncol A ->
+  length (snd (gsvd_weights nrow ncol A reg)) = ncol.
+Proof.
+  intros [HL HF]. unfold gsvd_weights, gsvd_reg_matrix. cbn [snd].
+  destruct (Qeq_bool reg 0).
+  - unfold slr_plain, slr_transpose. cbn [slr_mat slr_lr map]. rewrite slr_matvec_nil, qmat_vec_length.
+    unfold transpose_n. rewrite map_length, seq_length. reflexivity.
+  - unfold regularizer, slr_transpose. cbn [slr_mat slr_lr map fst snd].
+    rewrite slr_matvec_one, vadd_length, qmat_vec_length, vscale_length, map_length, vones_length.
+    unfold transpose_n. rewrite map_length, seq_length. lia.
+Qed.
+
+Lemma gsvd_emb_col_entry pcol psr nrow ncol A reg sV sS index i k :
+  wf_mat nrow ncol A -> length sV = ncol -> (i < ncol)%nat -> (k < length index)%nat ->
+  let j := nth k index 0%nat in
+  nthq (nth i (gsvd_emb_col pcol psr nrow ncol A reg sV sS index) []) k ==
+  pinv (pcol (nthq (snd (gsvd_weights nrow ncol A reg)) i)) * mget sV i j * psr (nthq sS j).
+Proof.
+  intros HA HV Hi Hk j. pose proof (gsvd_weights_col_length nrow ncol A reg HA) as HW. unfold gsvd_emb_col, gsvd_sv.
+  rewrite (nth_map_gen (fun r => vmul (map psr (map (nthq sS) index)) r) _ [] []) by
+      (unfold row_scale; rewrite map2_length, take_cols_length; unfold gsvd_diag; rewrite map_length; lia).
+  rewrite row_scale_nth by (rewrite ?take_cols_length; unfold gsvd_diag; rewrite ?map_length; lia).
+  unfold take_cols. rewrite (nth_map_gen (fun r => map (nthq r) index) sV [] []) by lia.
+  rewrite nthq_vmul by (rewrite ?vscale_length, ?map_length; lia).
+  rewrite nthq_vscale by (rewrite map_length; lia).
+  rewrite map_map. rewrite (nthq_map_gen (fun x => psr (nthq sS x)) index 0%nat) by exact Hk.
+  rewrite (nthq_map_gen (nthq (nth i sV [])) index 0%nat) by exact Hk.
+  unfold gsvd_diag. rewrite (nthq_map_gen (fun x => pinv (pcol x)) _ 0) by lia.
+  fold j. unfold mget, nthq. ring.
+Qed.
+
+(* ------------------------------------------------------------------------------------------- *)
+(** * normalize(p = 2) *)
+Lemma sumq_vmul_self r : sumq (vmul r r) == sumq (map (fun x => x * x) r).
+Proof. induction r as [|a r IH]; [reflexivity|]. cbn. fold (vmul r r). fold (sumq (vmul r r)). rewrite IH. reflexivity. Qed.
+
+Lemma sqnorm_sumsq r : sqnorm r == sumq (map (fun x => x * x) r).
+Proof.
+  unfold sqnorm. rewrite qdot_dot. rewrite <- sumq_vmul_self.
+  rewrite <- (Nat.min_id (length r)) at 1. rewrite <- (vmul_length r r). apply dot_vones_r.
+Qed.
+
+Global Instance sqnorm_proper : Proper (veq ==> Qeq) sqnorm.
+Proof.
+  intros r r' H. unfold sqnorm. rewrite !qdot_dot, (veq_length _ _ H). rewrite H. reflexivity.
+Qed.
+
+Lemma sumsq_nonneg r : 0 <= sumq (map (fun x => x * x) r).
+Proof.
+  induction r as [|a r IH]; [apply Qle_refl|]. cbn. fold (sumq (map (fun x => x * x) r)). nra.
+Qed.
+
+Lemma sumsq_zero r : sumq (map (fun x => x * x) r) == 0 <-> Forall (fun x => x == 0) r.
+Proof.
+  induction r as [|a r IH]; [split; [constructor | reflexivity]|].
+  cbn. fold (sumq (map (fun x => x * x) r)). pose proof (sumsq_nonneg r) as HS. split.
+  - intros H. assert (Ha : a == 0) by nra. constructor; [exact Ha|]. apply IH. rewrite Ha in H. lra.
+  - intros H. inversion H as [|? ? Ha Hr]; subst. apply IH in Hr. rewrite Ha, Hr. ring.
+Qed.
+
+(** A row is null iff its squared norm is 0. *)
+Lemma sqnorm_zero r : sqnorm r == 0 <-> Forall (fun x => x == 0) r.
+Proof. rewrite sqnorm_sumsq. apply sumsq_zero. Qed.
+
+Lemma sumsq_vscale c r : sumq (map (fun x => x * x) (vscale c r)) == c * c * sumq (map (fun x => x * x) r).
+Proof.
+  induction r as [|a r IH]; [cbn; ring|]. cbn. fold (vscale c r).
+  fold (sumq (map (fun x => x * x) (vscale c r))). fold (sumq (map (fun x => x * x) r)). rewrite IH. ring.
+Qed.
+
+(** With normalisation every non-null row has norm 1, for any sqrt oracle that answers the
+    question asked ([s * s = sqnorm r]). *)
+Theorem normalize_row2_unit (norm_o : Q -> Q) (r : vec) :
+  norm_o (sqnorm r) * norm_o (sqnorm r) == sqnorm r ->
+  ~ Forall (fun x => x == 0) r ->
+  sqnorm (normalize_row2 norm_o r) == 1.
+Proof.
+  intros Hs Hnz. rewrite <- sqnorm_zero in Hnz. unfold normalize_row2.
+  rewrite sqnorm_sumsq, sumsq_vscale, <- sqnorm_sumsq, pinv_inv.
+  set (s := norm_o (sqnorm r)) in *.
+  assert (Hs0 : ~ s == 0) by (intros E; apply Hnz; rewrite <- Hs, E; ring).
+  rewrite <- Hs. field. exact Hs0.
+Qed.
+
+Lemma normalize_row2_null (norm_o : Q -> Q) (r : vec) :
+  Forall (fun x => x == 0) r -> Forall (fun x => x == 0) (normalize_row2 norm_o r).
+Proof.
+  intros H. unfold normalize_row2, vscale. rewrite Forall_map. eapply Forall_impl; [|exact H].
+  cbn. intros a Ha. rewrite Ha. ring.
+Qed.
+
+Lemma normalize_row2_proper (norm_o : Q -> Q) : Proper (Qeq ==> Qeq) norm_o ->
+  Proper (veq ==> veq) (normalize_row2 norm_o).
+Proof.
+  intros HP r r' H. unfold normalize_row2. rewrite H at 2. apply vscale_proper; [|reflexivity].
+  apply pinv_proper. apply HP. rewrite H. reflexivity.
+Qed.
+
+Theorem normalize2_unit (norm_o : Q -> Q) (E : mat) (i : nat) :
+  (i < length E)%nat ->
+  (let s := sqnorm (nth i E []) in norm_o s * norm_o s == s) ->
+  ~ Forall (fun x => x == 0) (nth i E []) ->
+  sqnorm (nth i (normalize2 norm_o E) []) == 1.
+Proof.
+  intros Hi Hs Hnz. unfold normalize2. rewrite (nth_map_gen (normalize_row2 norm_o) E [] []) by exact Hi.
+  apply normalize_row2_unit; assumption.
+Qed.
+
+(** GSVD.fit / GSVD.predict with the [normalized] flag. *)
+Theorem gsvd_predict_reproduces_fit_full (prow pcol psl psr norm_o : Q -> Q) (normalized : bool) (nrow ncol : nat)
+        (A : mat) (reg : Q) (sU : mat) (sS : vec) (sV : mat) (index : list nat) (i : nat) :
+  wf_mat nrow ncol A -> length sU = nrow -> (i < nrow)%nat ->
+  Proper (Qeq ==> Qeq) norm_o ->
+  (forall k, (k < length index)%nat -> let j := nth k index 0%nat in
+     slr_matvec (gsvd_operator prow pcol nrow ncol A reg) (col j sV) =v vscale (nthq sS j) (col j sU) /\
+     psl (nthq sS j) * psr (nthq sS j) == nthq sS j /\ ~ psr (nthq sS j) == 0) ->
+  let '(sv, Ul, Vr, emb_row, emb_col) :=
+      gsvd_fit prow pcol psl psr norm_o normalized nrow ncol A reg sU sS sV index in
+  gsvd_predict_row prow pcol psr norm_o normalized ncol reg (snd (gsvd_weights nrow ncol A reg)) sv Vr (nth i A [])
+  =v nth i emb_row [].
+Proof.
+  intros HA HU Hi HP Hsolver. unfold gsvd_fit, gsvd_core.
+  pose proof (gsvd_predict_core prow pcol psl psr nrow ncol A reg HA sU sS sV index HU i norm_o Hi Hsolver) as H.
+  destruct normalized.
+  - unfold gsvd_predict_row in *. cbv iota in *.
+    unfold normalize2. rewrite (nth_map_gen (normalize_row2 norm_o) _ [] []).
+    + apply (normalize_row2_proper norm_o HP). exact H.
+    + unfold gsvd_emb_row. rewrite map_length. unfold row_scale. rewrite map2_length, take_cols_length.
+      unfold gsvd_diag. rewrite map_length, (gsvd_weights_row_length nrow ncol A reg HA). lia.
+  - exact H.
+Qed.
+
+(* ------------------------------------------------------------------------------------------- *)
+(** * The operator handed to the SVD solver is the documented weighted, regularised matrix *)
+Lemma reg_adj_zero c A reg : reg == 0 -> reg_adj c A reg =m A.
+Proof.
+  intros H. unfold reg_adj. induction A as [|r A IH]; cbn; constructor; [|exact IH].
+  induction r as [|a r IHr]; cbn; constructor; [|exact IHr]. rewrite H. unfold Qdiv. ring.
+Qed.
+
+Theorem gsvd_operator_matvec (prow pcol : Q -> Q) (nrow ncol : nat) (A : mat) (reg : Q) (v : vec) :
+  wf_mat nrow ncol A ->
+  let W := gsvd_weights nrow ncol A reg in
+  slr_matvec (gsvd_operator prow pcol nrow ncol A reg) v =v
+  vmul (gsvd_diag prow (fst W)) (mat_vec (reg_adj ncol A reg) (vmul (gsvd_diag pcol (snd W)) v)).
+Proof.
+  intros HA W. pose proof (gsvd_weights_row_length nrow ncol A reg HA) as HW. destruct HA as [HL HF].
+  unfold gsvd_operator. fold W.
+  assert (HD : length (gsvd_diag prow (fst W)) = nrow) by (unfold gsvd_diag; rewrite map_length; exact HW).
+  unfold gsvd_reg_matrix. destruct (Qeq_bool reg 0) eqn:E.
+  - apply Qeq_bool_iff in E. rewrite slr_left_diag_matvec.
+    + rewrite slr_right_diag_matvec. unfold slr_plain. rewrite slr_matvec_nil, qmat_vec_eq.
+      rewrite (reg_adj_zero ncol A reg E). reflexivity.
+    + rewrite HD. unfold slr_right_diag, slr_plain, col_scale. cbn [slr_mat]. rewrite map_length. lia.
+    + unfold slr_right_diag, slr_plain. cbn [slr_lr map]. constructor.
+  - rewrite slr_left_diag_matvec.
+    + rewrite slr_right_diag_matvec. rewrite (regularizer_matvec nrow ncol) by (split; assumption). reflexivity.
+    + rewrite HD. unfold slr_right_diag, regularizer, col_scale. cbn [slr_mat]. rewrite map_length. lia.
+    + unfold slr_right_diag, regularizer. cbn [slr_lr map fst snd]. constructor; [|constructor].
+      cbn [fst]. rewrite vscale_length, vones_length. lia.
+Qed.
+
+(** The weights are the row / column sums of the regularised matrix. *)
+Lemma gsvd_weights_row_sums nrow ncol A reg : wf_mat nrow ncol A ->
+  fst (gsvd_weights nrow ncol A reg) =v row_sums (reg_adj ncol A reg).
+Proof.
+  intros HA. unfold gsvd_weights, gsvd_reg_matrix. cbn [fst].
+  assert (HR : wf_mat nrow ncol (reg_adj ncol A reg)).
+  { unfold reg_adj. apply (wf_map nrow ncol ncol); [|exact HA]. intros row H. rewrite map_length. exact H. }
+  destruct (Qeq_bool reg 0) eqn:E.
+  - apply Qeq_bool_iff in E. unfold slr_plain. rewrite slr_matvec_nil, qmat_vec_eq.
+    rewrite (mat_vec_vones nrow ncol) by exact HA. rewrite (reg_adj_zero ncol A reg E). reflexivity.
+  - rewrite (regularizer_matvec nrow ncol) by exact HA. apply (mat_vec_vones nrow ncol). exact HR.
+Qed.
+
+(* ------------------------------------------------------------------------------------------- *)
+(** * PCA: the SparseLR operator is the centred matrix A - 1 mean^T (and its transpose) *)
+Lemma outer_nth x y i : (i < length x)%nat -> nth i (outer x y) [] = vscale (nthq x i) y.
+Proof. intros H. unfold outer, nthq. apply (nth_map_gen (fun xi => vscale xi y) x 0 []). exact H. Qed.
+
+Lemma pca_y_means nrow ncol A : length A = nrow ->
+  map (fun s => s / qn nrow) (qmat_vec (transpose_n ncol A) (vones nrow)) =v col_means nrow ncol A.
+Proof.
+  intros HL. unfold col_means. apply map_veq; [intros a b H; rewrite H; reflexivity|].
+  rewrite qmat_vec_eq, <- HL. apply mat_vec_transpose_vones.
+Qed.
+
+Lemma col_means_length nrow ncol A : length (col_means nrow ncol A) = ncol.
+Proof. unfold col_means. rewrite map_length. apply col_sums_length. Qed.
+
+Lemma pca_operator_wf nrow ncol A : wf_mat nrow ncol A -> slr_wf nrow ncol (pca_operator nrow ncol A).
+Proof.
+  intros HA. split; [exact HA|]. cbn. constructor; [|constructor]. cbn.
+  rewrite vneg_length, vones_length, map_length, qmat_vec_length. unfold transpose_n. rewrite map_length, seq_length.
+  split; reflexivity.
+Qed.
+
+Lemma pca_dense nrow ncol A : wf_mat nrow ncol A -> slr_dense (pca_operator nrow ncol A) =m centered nrow ncol A.
+Proof.
+  intros HA. pose proof HA as [HL HF]. pose proof (pca_y_means nrow ncol A HL) as HY.
+  pose proof (col_means_length nrow ncol A) as HM.
+  unfold slr_dense, pca_operator. cbn [slr_lr slr_mat fold_left fst snd].
+  set (y := map (fun s => s / qn nrow) (qmat_vec (transpose_n ncol A) (vones nrow))) in *.
+  assert (Hy : length y = ncol) by (rewrite (veq_length _ _ HY); exact HM).
+  apply meq_nth.
+  - unfold madd, centered, outer. rewrite map2_length, !map_length, vneg_length, vones_length. lia.
+  - intros i Hi. unfold madd in Hi. rewrite map2_length in Hi. unfold outer in Hi. rewrite !map_length, vneg_length, vones_length in Hi.
+    assert (Hi' : (i < nrow)%nat) by lia.
+    unfold madd. rewrite nth_map2_mat by (unfold outer; rewrite ?map_length, ?vneg_length, ?vones_length; lia).
+    rewrite outer_nth by (rewrite vneg_length, vones_length; lia).
+    rewrite nthq_vneg by (rewrite vones_length; lia). rewrite nthq_vones by lia.
+    unfold centered. rewrite (nth_map_gen (fun r => vsub r (col_means nrow ncol A)) A [] []) by lia.
+    pose proof (wf_mat_row nrow ncol A i HA Hi') as Hr.
+    apply veq_nth.
+    + rewrite vadd_length, vsub_length, vscale_length. lia.
+    + intros j Hj. rewrite vadd_length, vscale_length in Hj.
+      rewrite nthq_vadd by (rewrite ?vscale_length; lia). rewrite nthq_vscale by lia.
+      rewrite nthq_vsub by lia. rewrite (veq_nthq _ _ j HY). ring.
+Qed.
+
+Theorem pca_centering nrow ncol A v : wf_mat nrow ncol A ->
+  slr_matvec (pca_operator nrow ncol A) v =v mat_vec (centered nrow ncol A) v.
+Proof.
+  intros HA. rewrite (slr_matvec_dense nrow ncol) by (apply pca_operator_wf; exact HA).
+  rewrite pca_dense by exact HA. reflexivity.
+Qed.
+
+Lemma slr_transpose_dense_one r c M x y : wf_mat r c M -> length x = r -> length y = c ->
+  slr_dense (slr_transpose c {| slr_mat := M; slr_lr := [(x, y)] |}) =m
+  transpose_n c (slr_dense {| slr_mat := M; slr_lr := [(x, y)] |}).
+Proof.
+  intros HM Hx Hy. subst c. unfold slr_dense, slr_transpose. cbn [slr_lr slr_mat map fold_left fst snd].
+  assert (HO : wf_mat r (length y) (outer x y)) by (rewrite <- Hx; apply outer_wf).
+  rewrite (transpose_madd r (length y)) by assumption. rewrite transpose_outer. reflexivity.
+Qed.
+
+Theorem pca_centering_transpose nrow ncol A u : wf_mat nrow ncol A ->
+  slr_matvec (slr_transpose ncol (pca_operator nrow ncol A)) u =v mat_vec (transpose_n ncol (centered nrow ncol A)) u.
+Proof.
+  intros HA. pose proof (pca_operator_wf nrow ncol A HA) as [HM HL]. cbn in HL. inversion HL as [|? ? [Hx Hy] _]; subst.
+  cbn [fst snd] in Hx, Hy.
+  rewrite (slr_matvec_dense ncol nrow).
+  - unfold pca_operator. rewrite (slr_transpose_dense_one nrow ncol) by assumption.
+    fold (pca_operator nrow ncol A). rewrite pca_dense by exact HA. reflexivity.
+  - split; cbn.
+    + apply transpose_n_wf. apply HA.
+    + constructor; [|constructor]. cbn. split; assumption.
+Qed.
+
+(* ------------------------------------------------------------------------------------------- *)
+(** * RandomProjection *)
+Theorem normalizer_matvec_dense n A reg x : (0 < n)%nat -> wf_mat n n A -> 0 <= reg -> length x = n ->
+  normalizer_matvec n n A reg x =v mat_vec (transition (reg_adj n A reg)) x.
+Proof.
+  intros Hn HA Hreg Hx. pose proof HA as [HL HF]. pose proof (reg_adj_wf n A reg HA) as [RL RF].
+  unfold normalizer_matvec.
+  set (prod := if Qlt_bool 0 reg then vadd (qmat_vec A x) (vscale (reg * mean x) (vones n)) else qmat_vec A x).
+  assert (Hpl : length prod = n)
+    by (unfold prod; destruct (Qlt_bool 0 reg); rewrite ?vadd_length, ?qmat_vec_length, ?vscale_length, ?vones_length; lia).
+  assert (Hp : forall i, (i < n)%nat -> nthq prod i == dot (nth i A []) x + reg * mean x).
+  { intros i Hi. unfold prod. destruct (Qlt_bool 0 reg) eqn:E.
+    - rewrite nthq_vadd by (rewrite ?qmat_vec_length, ?vscale_length, ?vones_length; lia).
+      rewrite nthq_qmat_vec by lia. rewrite qdot_dot. rewrite nthq_vscale by (rewrite vones_length; lia).
+      rewrite nthq_vones by lia. ring.
+    - apply Qlt_bool_false in E. assert (R0 : reg == 0) by (apply Qle_antisym; assumption).
+      rewrite nthq_qmat_vec by lia. rewrite qdot_dot, R0. ring. }
+  apply veq_nth.
+  - rewrite vmul_length, map_length, qmat_vec_length, mat_vec_length. unfold transition. rewrite map_length. lia.
+  - intros i Hi. rewrite vmul_length, map_length, qmat_vec_length in Hi.
+    assert (Hi' : (i < n)%nat) by lia.
+    rewrite nthq_vmul by (rewrite ?map_length, ?qmat_vec_length; lia).
+    rewrite (nthq_map (fun w => pinv (w + reg))) by (rewrite qmat_vec_length; lia).
+    rewrite nthq_qmat_vec by lia. rewrite Hp by exact Hi'.
+    rewrite nthq_mat_vec by (unfold transition; rewrite map_length; lia).
+    rewrite transition_row by lia. rewrite dot_vscale_l.
+    rewrite (reg_adj_rowsum n A reg Hn HA i Hi'), (reg_adj_dot n A reg Hn HA i x Hi' Hx).
+    rewrite qdot_dot. rewrite <- (wf_mat_row n n A i HA Hi') at 1. rewrite dot_vones_r. reflexivity.
+Qed.
+
+Lemma mat_pow_apply_length n M t g : wf_mat n n M -> length g = n -> length (mat_pow_apply M t g) = n.
+Proof. intros [HL _] Hg. destruct t; cbn; [exact Hg | rewrite mat_vec_length; exact HL]. Qed.
+
+Lemma rp_spec_length n M alpha K g : wf_mat n n M -> length g = n -> length (rp_spec M alpha K g) = n.
+Proof.
+  intros HM Hg. induction K as [|K IH]; [exact Hg|].
+  cbn [rp_spec]. rewrite vadd_length, IH, vscale_length, (mat_pow_apply_length n) by assumption. lia.
+Qed.
+
+(** The loop computes (I + alpha M + ... + (alpha M)^K) g for any operator that acts as the dense M. *)
+Lemma rp_loop_invariant n M op alpha g : wf_mat n n M -> length g = n ->
+  (forall x, length x = n -> op x =v mat_vec M x) ->
+  forall K t f e, f =v vscale (qpow alpha t) (mat_pow_apply M t g) -> e =v rp_spec M alpha t g ->
+  rp_loop op alpha K f e =v rp_spec M alpha (t + K) g.
+Proof.
+  intros HM Hg Hop. induction K as [|K IH]; intros t f e Hf He.
+  - rewrite Nat.add_0_r. exact He.
+  - cbn [rp_loop]. replace (t + S K)%nat with (S t + K)%nat by lia.
+    assert (Hfl : length f = n).
+    { rewrite (veq_length _ _ Hf), vscale_length. apply (mat_pow_apply_length n); assumption. }
+    assert (Hf' : vscale alpha (op f) =v vscale (qpow alpha (S t)) (mat_pow_apply M (S t) g)).
+    { rewrite (Hop f Hfl), Hf, mat_vec_vscale, vscale_vscale. cbn [qpow mat_pow_apply]. reflexivity. }
+    apply IH; [exact Hf'|]. cbn [rp_spec]. rewrite He, Hf'. reflexivity.
+Qed.
+
+Theorem rp_loop_closed_form n M op alpha K g : wf_mat n n M -> length g = n ->
+  (forall x, length x = n -> op x =v mat_vec M x) ->
+  rp_loop op alpha K g g =v rp_spec M alpha K g.
+Proof.
+  intros HM Hg Hop. apply (rp_loop_invariant n M op alpha g HM Hg Hop K 0%nat g g).
+  - change (g =v vscale 1 g). symmetry. apply vscale_1.
+  - reflexivity.
+Qed.
+
+(** RandomProjection's multiplier is the documented matrix: A + reg 11^T/n, or its transition matrix. *)
+Definition rp_matrix (random_walk : bool) (n : nat) (A : mat) (reg : Q) : mat :=
+  if random_walk then transition (reg_adj n A reg) else reg_adj n A reg.
+
+Theorem random_projection_column n A reg alpha K random_walk g :
+  (0 < n)%nat -> wf_mat n n A -> 0 <= reg -> length g = n ->
+  rp_loop (rp_multiplier random_walk n A reg) alpha K g g =v rp_spec (rp_matrix random_walk n A reg) alpha K g.
+Proof.
+  intros Hn HA Hreg Hg. pose proof (reg_adj_wf n A reg HA) as HR.
+  apply (rp_loop_closed_form n); [| exact Hg |].
+  - unfold rp_matrix. destruct random_walk; [|exact HR]. unfold transition.
+    apply (wf_map n n n); [|exact HR]. intros row H. rewrite vscale_length. exact H.
+  - intros x Hx. unfold rp_multiplier, rp_matrix. destruct random_walk.
+    + apply normalizer_matvec_dense; assumption.
+    + apply (regularizer_matvec n n). exact HA.
+Qed.
+
+(* ------------------------------------------------------------------------------------------- *)
+(** * LouvainEmbedding *)
+Lemma dot_indicator r labels c : length r = length labels ->
+  dot r (indicator c labels) == cluster_weight r labels c.
+Proof.
+  revert labels; induction r as [|a r IH]; intros [|l labels] H; simpl in H; try discriminate; [reflexivity|].
+  unfold indicator, cluster_weight in *. cbn [map map2 sumq fold_right]. rewrite dot_cons, IH by lia.
+  fold (sumq (map2 (fun a0 l0 => if (l0 =? Z.of_nat c)%Z then a0 else 0) r labels)).
+  destruct (l =? Z.of_nat c)%Z; ring.
+Qed.
+
+Lemma norm1_abs r : norm1 r == sumq (map Qabs r).
+Proof. unfold norm1. rewrite qdot_dot. rewrite <- (map_length Qabs r). apply dot_vones_r. Qed.
+
+Theorem louvain_embedding_entry A labels i c :
+  (i < length A)%nat -> (c < n_labels labels)%nat -> length (nth i A []) = length labels ->
+  mget (louvain_embedding A labels) i c ==
+  pinv (sumq (map Qabs (nth i A []))) * cluster_weight (nth i A []) labels c.
+Proof.
+  intros Hi Hc Hl. unfold mget, louvain_embedding.
+  rewrite (nth_map_gen (fun r => map (fun c0 => qdot (normalize_row1 r) (indicator c0 labels)) (seq 0 (n_labels labels))) A [] []) by exact Hi.
+  rewrite nthq_seq_map by exact Hc. unfold normalize_row1.
+  rewrite qdot_dot, dot_vscale_l, dot_indicator by exact Hl. rewrite norm1_abs. reflexivity.
+Qed.
+
+(** Rows of a non-negative matrix sum to the share of weight on labelled (non-removed) nodes;
+    the shape is n x (max label + 1). *)
+Lemma louvain_embedding_shape A labels : wf_mat (length A) (n_labels labels) (louvain_embedding A labels).
+Proof.
+  unfold louvain_embedding. split; [apply map_length|]. rewrite Forall_map. apply Forall_forall. intros r _.
+  rewrite map_length, seq_length. reflexivity.
+Qed.
+
+(* ------------------------------------------------------------------------------------------- *)
+(** * Residual validators *)
+Lemma all_le_Forall eps x : all_le eps x = true <-> Forall (fun t => Qabs t <= eps) x.
+Proof.
+  unfold all_le. rewrite forallb_forall, Forall_forall. split; intros H t Ht.
+  - apply Qle_bool_iff. apply H; exact Ht.
+  - apply Qle_bool_iff. apply H; exact Ht.
+Qed.
+
+Lemma linf_le eps x : 0 <= eps -> (linf x <= eps <-> Forall (fun t => Qabs t <= eps) x).
+Proof.
+  intros He. unfold linf. induction x as [|a x IH]; cbn [map fold_right].
+  - split; [constructor | intros _; exact He].
+  - rewrite Q.max_lub_iff. split.
+    + intros [Ha Hx]. constructor; [exact Ha | apply IH; exact Hx].
+    + intros H. inversion H; subst. split; [assumption | apply IH; assumption].
+Qed.
+
+Lemma shape_ok_wf r c M : shape_ok r c M = true <-> wf_mat r c M.
+Proof.
+  unfold shape_ok, wf_mat. rewrite andb_true_iff, Nat.eqb_eq, forallb_forall, Forall_forall.
+  split; intros [H1 H2]; split; auto; intros row Hr; apply Nat.eqb_eq; apply H2; exact Hr.
+Qed.
+
+Lemma Forall_nthq (P : Q -> Prop) x : Forall P x -> forall i, (i < length x)%nat -> P (nthq x i).
+Proof. intros H i Hi. rewrite Forall_forall in H. apply H. unfold nthq. apply nth_In. exact Hi. Qed.
+
+Theorem eig_residual_sound M lam v eps : 0 <= eps ->
+  eig_residual_check M lam v eps = true ->
+  wf_mat (length v) (length v) M /\
+  linf (vsub (mat_vec M v) (vscale lam v)) <= eps /\
+  forall i, (i < length v)%nat -> Qabs (dot (nth i M []) v - lam * nthq v i) <= eps.
+Proof.
+  intros He H. unfold eig_residual_check in H. apply andb_true_iff in H. destruct H as [Hs Ha].
+  apply shape_ok_wf in Hs. apply all_le_Forall in Ha. split; [exact Hs|]. split.
+  - apply linf_le; assumption.
+  - intros i Hi. destruct Hs as [HL HF]. unfold eig_residual in Ha.
+    pose proof (Forall_nthq _ _ Ha i) as Hn.
+    rewrite vsub_length, mat_vec_length, vscale_length, HL, Nat.min_id in Hn. specialize (Hn Hi).
+    rewrite nthq_vsub in Hn by (rewrite ?mat_vec_length, ?vscale_length; lia).
+    rewrite nthq_mat_vec in Hn by lia. rewrite nthq_vscale in Hn by lia. exact Hn.
+Qed.
+
+Theorem svd_residual_sound M u sigma v eps : 0 <= eps ->
+  svd_residual_check M u sigma v eps = true ->
+  wf_mat (length u) (length v) M /\
+  linf (vsub (mat_vec M v) (vscale sigma u)) <= eps /\
+  linf (vsub (mat_vec (transpose_n (length v) M) u) (vscale sigma v)) <= eps /\
+  (forall i, (i < length u)%nat -> Qabs (dot (nth i M []) v - sigma * nthq u i) <= eps) /\
+  (forall j, (j < length v)%nat -> Qabs (dot (col j M) u - sigma * nthq v j) <= eps).
+Proof.
+  intros He H. unfold svd_residual_check in H. apply andb_true_iff in H. destruct H as [H Hr].
+  apply andb_true_iff in H. destruct H as [Hs Hl].
+  apply shape_ok_wf in Hs. apply all_le_Forall in Hl. apply all_le_Forall in Hr.
+  split; [exact Hs|]. split; [apply linf_le; assumption|]. split; [apply linf_le; assumption|].
+  destruct Hs as [HL HF]. split.
+  - intros i Hi. unfold svd_residual_l in Hl. pose proof (Forall_nthq _ _ Hl i) as Hn.
+    rewrite vsub_length, mat_vec_length, vscale_length, HL, Nat.min_id in Hn. specialize (Hn Hi).
+    rewrite nthq_vsub in Hn by (rewrite ?mat_vec_length, ?vscale_length; lia).
+    rewrite nthq_mat_vec in Hn by lia. rewrite nthq_vscale in Hn by lia. exact Hn.
+  - intros j Hj. unfold svd_residual_r in Hr. pose proof (Forall_nthq _ _ Hr j) as Hn.
+    assert (HT : length (transpose_n (length v) M) = length v) by (unfold transpose_n; rewrite map_length, seq_length; reflexivity).
+    rewrite vsub_length, mat_vec_length, vscale_length, HT, Nat.min_id in Hn. specialize (Hn Hj).
+    rewrite nthq_vsub in Hn by (rewrite ?mat_vec_length, ?vscale_length; lia).
+    rewrite nthq_mat_vec in Hn by lia. rewrite nth_transpose_n in Hn by exact Hj.
+    rewrite nthq_vscale in Hn by lia. exact Hn.
+Qed.
+
+(** Matrix level: column j of RandomProjection's (unnormalised) embedding is the closed form applied to
+    column j of the random matrix. *)
+Theorem random_projection_closed_form_cols random_walk n k A reg alpha K G j :
+  (0 < n)%nat -> wf_mat n n A -> 0 <= reg -> wf_mat n k G -> (j < k)%nat ->
+  col j (random_projection_core random_walk n k A reg alpha K G) =v
+  rp_spec (rp_matrix random_walk n A reg) alpha K (col j G).
+Proof.
+  intros Hn HA Hreg [GL GF] Hj. unfold random_projection_core.
+  set (op := rp_multiplier random_walk n A reg).
+  assert (Hcol : forall j', length (col j' G) = n) by (intros j'; rewrite col_length; exact GL).
+  assert (HM : wf_mat n n (rp_matrix random_walk n A reg)).
+  { pose proof (reg_adj_wf n A reg HA) as HR. unfold rp_matrix. destruct random_walk; [|exact HR]. unfold transition.
+    apply (wf_map n n n); [|exact HR]. intros row H. rewrite vscale_length. exact H. }
+  assert (HW : wf_mat k n (map (fun g => rp_loop op alpha K g g) (transpose_n k G))).
+  { split; [unfold transpose_n; rewrite !map_length, seq_length; reflexivity|].
+    rewrite Forall_map. unfold transpose_n. rewrite Forall_map. apply Forall_forall. intros j' _. unfold op.
+    rewrite (veq_length _ _ (random_projection_column n A reg alpha K random_walk (col j' G) Hn HA Hreg (Hcol j'))).
+    apply (rp_spec_length n); [exact HM | apply Hcol]. }
+  rewrite (col_transpose_n k n _ j HW Hj).
+  rewrite (nth_map_gen (fun g => rp_loop op alpha K g g) (transpose_n k G) [] []) by
+      (unfold transpose_n; rewrite map_length, seq_length; exact Hj).
+  rewrite nth_transpose_n by exact Hj.
+  apply random_projection_column; auto.
+Qed.
+
+(* ------------------------------------------------------------------------------------------- *)
+(** * Statements in the form used by Props/C09.v *)
+Lemma gsvd_embedding_entries (prow pcol psl psr : Q -> Q) (nrow ncol : nat) (A : mat) (reg : Q)
+      (sU : mat) (sS : vec) (sV : mat) (index : list nat) (k : nat) :
+  wf_mat nrow ncol A -> length sU = nrow -> length sV = ncol -> (k < length index)%nat ->
+  let j := nth k index 0%nat in
+  let W := gsvd_weights nrow ncol A reg in
+  let '(sv, Ul, Vr, emb_row, emb_col) := gsvd_core prow pcol psl psr nrow ncol A reg sU sS sV index in
+  nthq sv k = nthq sS j /\ col k Ul = col j sU /\ col k Vr = col j sV /\
+  (forall i, (i < nrow)%nat ->
+     mget emb_row i k == pinv (prow (nthq (fst W) i)) * mget sU i j * psl (nthq sS j)) /\
+  (forall i, (i < ncol)%nat ->
+     mget emb_col i k == pinv (pcol (nthq (snd W) i)) * mget sV i j * psr (nthq sS j)).
+Proof.
+  intros HA HU HV Hk j W. unfold gsvd_core. repeat split.
+  - unfold gsvd_sv. apply (nthq_map_gen (nthq sS) index 0%nat). exact Hk.
+  - apply col_take_cols; exact Hk.
+  - apply col_take_cols; exact Hk.
+  - intros i Hi. unfold mget. apply (gsvd_emb_row_entry prow psl nrow ncol A reg HA sU sS index HU i k Hi Hk).
+  - intros i Hi. unfold mget. apply (gsvd_emb_col_entry pcol psr nrow ncol A reg sV sS index i k HA HV Hi Hk).
+Qed.
+
+Lemma pca_centering_both nrow ncol A : wf_mat nrow ncol A ->
+  (forall v, slr_matvec (pca_operator nrow ncol A) v =v mat_vec (centered nrow ncol A) v) /\
+  (forall u, slr_matvec (slr_transpose ncol (pca_operator nrow ncol A)) u =v
+             mat_vec (transpose_n ncol (centered nrow ncol A)) u) /\
+  (forall i j, (i < nrow)%nat -> (j < ncol)%nat ->
+     mget (centered nrow ncol A) i j == mget A i j - sumq (col j A) / qn nrow).
+Proof.
+  intros HA. split; [intros v; apply pca_centering; exact HA|]. split; [intros u; apply pca_centering_transpose; exact HA|].
+  intros i j Hi Hj. pose proof HA as [HL HF]. unfold mget, centered.
+  rewrite (nth_map_gen (fun r => vsub r (col_means nrow ncol A)) A [] []) by lia.
+  rewrite nthq_vsub by (rewrite ?(wf_mat_row nrow ncol A i HA Hi), ?col_means_length; lia).
+  unfold col_means. rewrite (nthq_map (fun s => s / qn nrow)) by (rewrite col_sums_length; exact Hj).
+  unfold col_sums. rewrite nthq_seq_map by exact Hj. reflexivity.
+Qed.
